@@ -62,6 +62,7 @@ Definition check (c : case) : bool :=
   end.
 
 Definition prop_check (c : case) : bool :=
+  check c &&   (* shares, group key and reconstructions are compared with the dealer polynomial itself *)
   match c with
   | KeygenCase _ _ _ _ _ _ _ recons consistent =>
       (* all reconstructions of one case coincide; harness-side cross checks hold *)
